@@ -8,6 +8,10 @@ path, old, new = sys.argv[1:4]
 args = sys.argv[i+1:]
 full = os.path.join('/repo', path)
 orig = open(full).read()
+import shutil, glob
+prop = args[0]
+ev = f'/verif/evidence/{prop}.json'
+ev_bak = open(ev).read() if os.path.exists(ev) else None
 if orig.count(old) != 1:
     print(f"mutation site not unique/found: count={orig.count(old)}"); sys.exit(3)
 try:
@@ -19,6 +23,8 @@ try:
     print('rc', r.returncode, '=> mutant', 'KILLED' if r.returncode == 1 else ('NOT DETECTED' if r.returncode == 0 else 'INCONCLUSIVE'))
 finally:
     open(full, 'w').write(orig)
+    if ev_bak is not None:
+        open(ev, 'w').write(ev_bak)
     st = subprocess.run(['git', '-C', '/repo', 'status', '--short'], capture_output=True, text=True).stdout
     if st.strip():
         print("WARNING: /repo not clean after restore:", st)
